@@ -397,7 +397,11 @@ impl ByteCompiler<'_> {
             self.patch_handler(handler_index);
 
             let error = self.register_allocator.alloc();
-            self.bytecode.emit_exception(error.variable());
+            let has_exception = self.register_allocator.alloc();
+            self.bytecode
+                .emit_maybe_exception(has_exception.variable(), error.variable());
+            let generator_return = self.jump_if_false(&has_exception);
+            self.register_allocator.dealloc(has_exception);
 
             // NOTE: Capture throw of the iterator close and ignore it.
             let handler_index = self.push_handler();
@@ -406,6 +410,13 @@ impl ByteCompiler<'_> {
 
             self.bytecode.emit_throw(error.variable());
             self.register_allocator.dealloc(error);
+
+            // No pending exception: `return()` was called on the suspended generator.
+            // Close the iterator and continue unwinding the return completion.
+            self.patch_jump(generator_return);
+            self.iterator_close(for_of_loop.r#await());
+            self.bytecode.emit_re_throw();
+
             self.patch_jump(exit);
         }
 
